@@ -4,6 +4,6 @@ CONSTANTS
   Plans = {"mc"}
   MaxSteps = 4
   Mode = "mc"
-INVARIANTS Inv_RelIds Inv_Media Inv_Resolve
-PROPERTIES Act_Stable Act_New Act_Render Act_MediaKept Act_Unchanged
+INVARIANTS Inv_RelIds Inv_Media Inv_Resolve Inv_Files
+PROPERTIES Act_Stable Act_New Act_Render Act_MediaKept Act_Unchanged Act_FilesKept
 CHECK_DEADLOCK FALSE
